@@ -55,7 +55,7 @@ var props = map[string]*PropDef{
 		Technique:  "sibling agreement",
 	},
 	"C15": {
-		Rules:      []string{"ALIAS-1"},
+		Rules:      []string{"FIELD-1", "ALIAS-1"},
 		Decided:    "(in progress)",
 		NotDecided: "(in progress)",
 		Technique:  "structural",
@@ -67,7 +67,7 @@ var props = map[string]*PropDef{
 		Technique:  "structural ordering + bracket rule",
 	},
 	"C08": {
-		Rules:      []string{"NS-1", "NS-2", "NS-3", "MAPCACHE-1", "TXN-1", "MERGE-1"},
+		Rules:      []string{"NS-1", "NS-2", "NS-3", "MATRIX", "MAPCACHE-1", "TXN-1", "MERGE-1"},
 		Decided:    "(in progress)",
 		NotDecided: "(in progress)",
 		Technique:  "guard dominance + path-sensitive dataflow",
@@ -85,7 +85,7 @@ var props = map[string]*PropDef{
 		Technique:  "path-sensitive go/cfg dataflow",
 	},
 	"C16": {
-		Rules:      []string{"STALE-1", "TXN-2", "NAMES-1", "BUF-1", "FP-2", "PTR-1", "PTR-2"},
+		Rules:      []string{"STALE-1", "TXN-2", "NAMES-1", "BUF-1", "FP-2", "PTR-1", "PTR-2", "POS-1"},
 		Decided:    "(in progress)",
 		NotDecided: "(in progress)",
 		Technique:  "path-sensitive go/cfg dataflow",
@@ -97,13 +97,13 @@ var props = map[string]*PropDef{
 		Technique:  "path-sensitive go/cfg dataflow",
 	},
 	"C01": {
-		Rules:      []string{"KIND-1", "DEPTH-1", "MAPCACHE-1", "TXN-1", "CASE-SYM"},
+		Rules:      []string{"MATRIX", "KIND-1", "DEPTH-1", "MAPCACHE-1", "TXN-1", "CASE-SYM"},
 		Decided:    "(in progress)",
 		NotDecided: "(in progress)",
 		Technique:  "sibling matrix + table evaluation",
 	},
 	"C20": {
-		Rules:      []string{"DEPTH-1", "CYCLE-1", "TXN-1", "TXN-2"},
+		Rules:      []string{"DEPTH-1", "CYCLE-1", "PANIC-1", "TXN-1", "TXN-2"},
 		Decided:    "(in progress)",
 		NotDecided: "(in progress)",
 		Technique:  "path-sensitive go/cfg dataflow",
